@@ -188,6 +188,24 @@ class Check:
         self.obls.append(o)
         return o
 
+    def external_lemma(self, name, cmd, backend, note=None, timeout=1800):
+        """a lemma discharged by an external proof checker (Lean): the obligation is the named theorem in the given file; it counts as
+        discharged iff the checker accepts the file (exit 0, no error, no `sorry`).  A rejected file is a checker fault, never a violation."""
+        import subprocess
+        t0 = time.time()
+        o = Obl(f"{self.prop}.lemma.{name}", [], z3.BoolVal(True), kind="lemma", tactics=(), meta={"note": note, "external": cmd})
+        try:
+            r = subprocess.run(cmd, shell=True, capture_output=True, text=True, timeout=timeout, cwd=VERIF)
+            out = (r.stdout + r.stderr)
+            ok = r.returncode == 0 and "error" not in out and "sorry" not in out
+            o.result = {"verdict": "unsat" if ok else "unknown", "backend": backend, "time": round(time.time() - t0, 2), "model": None, "reason": None if ok else out[-600:]}
+        except Exception as e:
+            o.result = {"verdict": "unknown", "backend": backend, "time": round(time.time() - t0, 2), "model": None, "reason": f"{type(e).__name__}: {e}"}
+        if o.result["verdict"] != "unsat":
+            self.faults.append(f"external lemma {name} not accepted by {backend}: {str(o.result['reason'])[:300]}")
+        self.obls.append(o)
+        return o
+
     # ---------------------------------------------------------------- bounded stand-ins
     def bounded_run(self, name, cases, fn, rule, classify=None, nontrivial=None, bound="", ref=None):
         """cases: iterable of (key, case); fn(case) -> None | failure detail (dict).  A failure is a violation on the
@@ -230,6 +248,8 @@ class Check:
     def solve(self):
         jobs = []
         for o in self.obls:
+            if o.result is not None:
+                continue  # discharged by an external checker
             try:
                 hy = o.hyps if o.kind == "cover" else cone(o.hyps, o.goal)
                 smt = solve.serialise(hy, o.goal)
@@ -242,6 +262,15 @@ class Check:
         for o in self.obls:
             if o.result is None:
                 o.result = res[o.name]
+        # undecided proof obligations: one more attempt with three times the budget while nothing else is running, so that a verdict does
+        # not flip to `unknown` merely because all cores were busy
+        again = [o for o in self.obls if o.kind != "cover" and o.result["verdict"] == "unknown" and getattr(o, "smt", None)]
+        if again:
+            res3 = solve.solve_all([(o.name, o.smt, o.tactics) for o in again], timeout_ms=3 * self.timeout_ms)
+            for o in again:
+                if res3[o.name]["verdict"] != "unknown":
+                    o.result = res3[o.name]
+                    o.result["retried"] = True
         # vacuity checks that the solver could not decide: retry with a concrete witness for the angle atoms
         retry = [o for o in self.obls if o.kind == "cover" and o.result["verdict"] == "unknown" and getattr(o, "retry_hyps", None)]
         if retry:
@@ -288,10 +317,37 @@ class Check:
                 self.discharged += 1
                 continue
             if v == "unknown":
-                self.undecided.append((o.name, r.get("reason", "")))
+                if self.ledger.get(o.clause) == "discharged" and o.contract is not None:
+                    self._lost(o)
+                else:
+                    self.undecided.append((o.name, r.get("reason", "")))
                 continue
             # refuted
             self._refuted(o)
+        # functions that were under contract on the accepted tree and are no longer within the verifier's reach
+        self.lost_functions = []
+        for fn in self.ledger.get("__functions__", []):
+            gone = [u for u in self.unsupported if u[0] == fn]
+            if gone:
+                self.lost_functions.append((fn, gone[0][2]))
+
+    def _lost(self, o):
+        """an obligation that was discharged on the accepted tree (ledger.json) and that no back end discharges any more: reported as a
+        violation of the named obligation; the replay file carries the solver's output; a failing input is searched natively"""
+        r, c = o.result, o.contract
+        try:
+            rep = c.replay(o.clause.split("].", 1)[-1], {}, o.cfg) or {"reproduced": None}
+        except Exception as e:
+            rep = {"reproduced": None, "why": "replay crashed: " + "".join(traceback.format_exception_only(type(e), e)).strip()}
+        if len([v for v in self.violations if v.get("lost")]) >= 6:
+            self.undecided.append((o.name, "no longer discharged (further ones not reported separately): " + str(r.get("reason", ""))))
+            return
+        body = {"kind": "deductive", "obligation": o.name, "clause": o.clause, "function": f"{c.module}.{c.qual}", "config": c.cfg_name(o.cfg),
+                "what": "this obligation was discharged on the accepted tree (ledger.json) and is not discharged on the current tree; no counter-model was produced",
+                "backend": r.get("backend"), "solver_verdict": r["verdict"], "solver_reason": r.get("reason"), "solver_time_s": r.get("time"), "meta": o.meta, "replay": rep,
+                "smt2": getattr(o, "smt", "")[:20000]}
+        path = self._write_replay(o.clause, body)
+        self.violations.append({"source": o.name, "replay": path, "no_input": rep.get("reproduced") is not True, "lost": True})
 
     def _refuted(self, o):
         r = o.result
@@ -410,6 +466,12 @@ class Check:
             "assumptions": sorted(set(BASE_ASSUMPTIONS) | set(extra_assumptions) | self.assumptions),
             "wall_s": round(wall, 2), "violations": len(self.violations),
         }
+        if os.environ.get("VERIF_WRITE_LEDGER"):
+            os.makedirs(os.path.join(OUT, "ledger_parts"), exist_ok=True)
+            part = {cl: "discharged" for cl, st in clauses.items() if st["paths"] == st["discharged"] and st["kind"] != "cover"}
+            part["__functions__"] = sorted({f["function"] for f in self.functions} - {u[0] for u in self.unsupported})
+            with open(os.path.join(OUT, "ledger_parts", f"{self.prop}-{self.tier}.json"), "w") as f:
+                json.dump(part, f, indent=0, sort_keys=True)
         os.makedirs(os.path.join(OUT, "evidence"), exist_ok=True)
         with open(os.path.join(OUT, "evidence", f"{self.prop}.json"), "w") as f:
             json.dump(ev, f, indent=1, default=str)
@@ -434,6 +496,10 @@ class Check:
             return 1
         if self.faults:
             return 3
+        if getattr(self, "lost_functions", None):
+            for fn, why in self.lost_functions:
+                print(f"UNDECIDED: property={self.prop} {fn} was under contract on the accepted tree and is outside the verifier's reach now ({why[:160]}); decided by the bounded stand-in only")
+            return 2
         return 0
 
 
